@@ -853,3 +853,172 @@ def replay_make_segment(model, obligation, mode):
         except Exception as ex:
             return dict(confirmed=True, call=call, detail='raised %r instead of ValueError' % (ex,))
     return dict(confirmed=False, detail='agrees on the tried byte strings')
+
+
+# ---------------------------------------------------------------- C01 replays
+ECI_NUMBERS_ISO = {
+    'cp437': 2, 'iso8859-1': 3, 'iso8859-2': 4, 'iso8859-3': 5, 'iso8859-4': 6, 'iso8859-5': 7, 'iso8859-6': 8,
+    'iso8859-7': 9, 'iso8859-8': 10, 'iso8859-9': 11, 'iso8859-10': 12, 'iso8859-11': 13, 'iso8859-13': 15,
+    'iso8859-14': 16, 'iso8859-15': 17, 'iso8859-16': 18, 'shift_jis': 20, 'cp1250': 21, 'cp1251': 22, 'cp1252': 23,
+    'cp1256': 24, 'utf-16-be': 25, 'utf-8': 26, 'ascii': 27, 'big5': 28, 'gb18030': 29, 'gbk': 29, 'euc_kr': 30,
+}
+
+
+def replay_eci_table(model, obligation):
+    """encode one character with each codec and eci=True and read the ECI designator from the symbol"""
+    from . import qrdecode
+    bad = []
+    for codec, want in sorted(ECI_NUMBERS_ISO.items()):
+        try:
+            text = 'Aé' if codec not in ('ascii',) else 'AB'
+            try:
+                text.encode(codec)
+            except UnicodeError:
+                text = 'AB'
+            q = segno.make(text, encoding=codec, eci=True, micro=False, mode='byte')
+        except Exception as ex:
+            bad.append((codec, 'raised %r' % (ex,)))
+            continue
+        d = qrdecode.decode(q.matrix)
+        ecis = [s.eci for s in d.segments if s.mode == 'eci']
+        if ecis != [want]:
+            bad.append((codec, 'ECI designator in the symbol %r, ISO/AIM assignment %r' % (ecis, want)))
+    return dict(confirmed=bool(bad), call="segno.make(text, encoding=<codec>, eci=True)", detail=repr(bad[:4]))
+
+
+def _decode_payload(q):
+    from . import qrdecode
+    d = qrdecode.decode(q.matrix)
+    return d
+
+
+def replay_add_segment(model, obligation, m1, m2, same_enc):
+    """two adjacent parts given as a list: the symbol must decode to their concatenation"""
+    unit = {'numeric': '7', 'alphanumeric': 'K', 'byte': 'a', 'kanji': '点', 'hanzi': '汉'}
+    m = model or {}
+    la, lb = int(m.get('len_a', 1)), int(m.get('len_b', 1))
+    div = {'kanji': 2, 'hanzi': 2}
+    tried = []
+    for a, b in ((la % 7 or 1, lb % 7 or 1), (2, 1), (1, 1), (4, 2), (3, 1), (1, 2)):
+        if m1 in div:
+            a = max(1, a // 2)
+        if m2 in div:
+            b = max(1, b // 2)
+        parts = [(unit[m1] * a, consts.MODE_MAPPING[m1]), (unit[m2] * b, consts.MODE_MAPPING[m2])]
+        if m1 == 'numeric':
+            parts[0] = (''.join(str((i * 7 + 1) % 10) for i in range(a)), parts[0][1])
+        if m2 == 'numeric':
+            parts[1] = (''.join(str((i * 3 + 2) % 10) for i in range(b)), parts[1][1])
+        call = 'segno.make_qr(%r)' % ([(t, encoder.get_mode_name(mm)) for t, mm in parts],)
+        try:
+            q = segno.make_qr(parts)
+        except Exception as ex:
+            return dict(confirmed=True, call=call, detail='raised %r' % (ex,))
+        d = _decode_payload(q)
+        enc1 = 'gb2312' if m1 == 'hanzi' else ('shift_jis' if m1 == 'kanji' else 'iso-8859-1')
+        enc2 = 'gb2312' if m2 == 'hanzi' else ('shift_jis' if m2 == 'kanji' else 'iso-8859-1')
+        want = parts[0][0].encode(enc1) + parts[1][0].encode(enc2)
+        tried.append(call)
+        if d.payload != want or d.problems:
+            return dict(confirmed=True, call=call, detail='reference decoder reads %r, content is %r; problems: %r' % (d.payload, want, d.problems[:2]))
+    return dict(confirmed=False, detail='decoded correctly: %r' % (tried[:3],))
+
+
+def replay_packer(model, obligation, mode):
+    """real symbols of the model's content (and a few lengths around it) must decode back"""
+    data = _bytes_of(model) or b''
+    unit = {'numeric': b'0123456789', 'alphanumeric': b'AZ09 $%*+-./:', 'byte': bytes(range(250, 256)) + b'\x00a',
+            'kanji': '点茗テ漢'.encode('shift_jis'), 'hanzi': '汉字编码'.encode('gb2312')}[mode]
+    step = 2 if mode in ('kanji', 'hanzi') else 1
+    cands = [data[:40]] + [(unit * 8)[:k * step] for k in (1, 2, 3, 4, 5, 6, 7, 8, 9)]
+    for c in cands:
+        try:
+            q = segno.make_qr(c, mode=mode)
+        except ValueError:
+            continue
+        except Exception as ex:
+            return dict(confirmed=True, call='segno.make_qr(%r, mode=%r)' % (c, mode), detail='raised %r' % (ex,))
+        d = _decode_payload(q)
+        if d.payload != c or d.problems:
+            return dict(confirmed=True, call='segno.make_qr(%r, mode=%r)' % (c, mode),
+                        detail='reference decoder reads %r; problems %r' % (d.payload, d.problems[:2]))
+    return dict(confirmed=False, detail='symbols decode back to the content')
+
+
+def replay_write_segment(model, obligation, version, mode, eci, encoding):
+    unit = {'numeric': '12345', 'alphanumeric': 'AB C1', 'byte': 'aé', 'kanji': '点茗', 'hanzi': '汉字'}[mode]
+    vname = iso.version_name(version)
+    kw = dict(mode=mode, version=vname, eci=eci, boost_error=False)
+    if mode == 'byte' and encoding:
+        kw['encoding'] = encoding
+    call = 'segno.make(%r, **%r)' % (unit, kw)
+    try:
+        q = segno.make(unit, **kw)
+    except Exception as ex:
+        return dict(confirmed=None, call=call, detail='raised %r' % (ex,))
+    d = _decode_payload(q)
+    from . import qrdecode
+    want = qrdecode.expected_payload(unit, mode=mode, encoding=kw.get('encoding'))
+    ecis = [s.eci for s in d.segments if s.mode == 'eci']
+    import codecs
+    want_eci = [ECI_NUMBERS_ISO[codecs.lookup(encoding).name]] if (eci and mode == 'byte' and encoding and codecs.lookup(encoding).name != 'iso8859-1') else []
+    bad = d.payload != want or d.problems or ecis != want_eci
+    return dict(confirmed=bool(bad), call=call, detail='decoded payload %r (want %r), ECI headers %r (want %r), problems %r' % (
+        d.payload, want, ecis, want_eci, d.problems[:2]))
+
+
+def replay_data_to_bytes(model, obligation, given, kind):
+    samples = ['abc', 'äöü', '点', '€', 'Ж', '\U0001F600']
+    bad = []
+    for s in samples:
+        try:
+            got = encoder.data_to_bytes(s, given)
+        except LookupError:
+            got = 'LookupError'
+        except UnicodeError:
+            got = 'UnicodeError'
+        if given is None:
+            for c in ('iso-8859-1', 'shift_jis', 'utf-8'):
+                try:
+                    want = (s.encode(c), len(s.encode(c)), c)
+                    break
+                except UnicodeError:
+                    continue
+        else:
+            try:
+                want = (s.encode(given), len(s.encode(given)), given)
+            except LookupError:
+                want = 'LookupError'
+            except UnicodeError:
+                want = 'UnicodeError'
+        if got != want:
+            bad.append((s, got, want))
+    return dict(confirmed=bool(bad), call='encoder.data_to_bytes(text, %r)' % (given,), detail=repr(bad[:3]))
+
+
+def replay_append_bits(model, obligation, width):
+    v = int((model or {}).get('val', 5))
+    b = encoder.Buffer([1, 0, 1])
+    b.append_bits(v, width)
+    got = list(b.getbits())
+    want = [1, 0, 1] + [(v >> i) & 1 for i in reversed(range(width))]
+    return dict(confirmed=got != want, call='Buffer([1,0,1]).append_bits(%d, %d)' % (v, width), detail='bits %r, binary representation %r' % (got, want))
+
+
+def replay_bounded_decode(model, obligation, content, kw):
+    import ast
+    from . import qrdecode
+    c = ast.literal_eval(content)
+    k = ast.literal_eval(kw)
+    call = 'segno.make(%s, **%s)' % (content[:100], kw)
+    try:
+        q = segno.make(c, **k)
+    except ValueError as ex:
+        return dict(confirmed=False, call=call, detail='refused: %s' % ex)
+    except Exception as ex:
+        return dict(confirmed=True, call=call, detail='raised %r' % (ex,))
+    d = qrdecode.decode(q.matrix)
+    want = qrdecode.expected_payload(c, mode=k.get('mode'), encoding=k.get('encoding'))
+    ecis = [s for s in d.segments if s.mode == 'eci']
+    bad = d.payload != want or d.problems or ((q.is_micro or not k.get('eci')) and ecis)
+    return dict(confirmed=bool(bad), call=call, detail='decoded %r, content bytes %r, problems %r, ECI headers %d' % (d.payload[:60], want[:60], d.problems[:2], len(ecis)))
